@@ -89,7 +89,7 @@ def optValStr : OptVal → String
 
 def handle (toks : List String) : Option String :=
   match toks with
-  | "c06.info" :: _ => some s!"rules {g.rules.length} ok {g.ok} types {(g.rules.map (·.type)).eraseDups.length}"
+  | "c06.info" :: _ => some s!"rules {g.rules.length} ok {g.ok} types {(g.rules.map (·.type)).eraseDups.length} fixes {theCfg.fixE} {theCfg.fixA} {theCfg.fixB}"
   | ["c06.split", h] => some <|
       match dec h with
       | none => "bad-op"
@@ -106,13 +106,13 @@ def handle (toks : List String) : Option String :=
       | some ls =>
         let (rs, st) := parseLines NState.empty ls []
         if rs.any (fun r => r.startsWith "err") then "err parse"
-        else " ".intercalate (st.elts.map fun c => match printCpt g c with
+        else " ".intercalate (st.elts.map fun c => match printCptC theCfg g c with
           | none => "unprintable"
           | some s => enc s)
   | "c06.printcpt" :: rest => some <|
       match decCpt rest with
       | none => "bad-op"
-      | some c => match printCpt g c with
+      | some c => match printCptC theCfg g c with
         | none => "unprintable"
         | some s => "ok " ++ enc s
   | "c06.rt" :: lines => some <|
@@ -123,13 +123,13 @@ def handle (toks : List String) : Option String :=
         match addLines g NState.empty (ls.map strip) with
         | .error e => "err1 " ++ e.toString
         | .ok s1 =>
-          match printNetlist g s1 with
+          match printNetlistC theCfg g s1 with
           | none => "unprintable"
           | some p1 =>
             match parseNetlist g p1 with
             | .error e => "err2 " ++ e.toString
             | .ok s2 =>
-              match printNetlist g s2 with
+              match printNetlistC theCfg g s2 with
               | none => "unprintable2"
               | some p2 => roundTripVerdict s1.elts s2.elts p1 p2
   | "c06.spec" :: rest => some <|
